@@ -45,3 +45,9 @@ func (db *DB) VerifC07Tables() [][]*sst.Table {
 	}
 	return out
 }
+
+// VerifC07EnqueueFlush puts fn on the serial flush queue (behind the flush tasks already enqueued), so that the harness
+// learns when a flush task function has returned (after it enqueued its compaction task, if any).
+func (db *DB) VerifC07EnqueueFlush(fn func() error) {
+	db.tasks.Enqueue(flushMemTablesQueue, fn)
+}
